@@ -36,6 +36,10 @@ Inductive dop :=
 | DDisrupt (r : Z) (budget ncands : nat) (f : fault) (cands : list name)
 | DDeprov (r : Z) (victims gone : list name) (nfail : nat) (* victims the code deleted and marked; those that left the API at
                                                      once; candidates whose API delete failed *)
+| DInterleave (r : Z) (ran : bool) (budget ncands : nat) (cands : list name)
+    (* a provisioning reconcile that wants one NodeClaim; INSIDE its kubeClient.Create (after ReserveNodeCount, before the
+       claim is active) a whole disruption pass runs: StaticDrift.ComputeCommands + StartCommand + its CreateNodeClaims.
+       [ran] = the Create was reached (a slot was granted) *)
 | DSkip                                          (* a reconcile that must not act: NodePool not ready / deleting / not
                                                      managed, or cluster state not synced (unlaunched claim, partial replay) *)
 | DFinalize (c : name)
@@ -252,6 +256,17 @@ Definition dstep (l : Z) (s : sys) (o : dop) : sys * bool * Z :=
       let s1 := sstep L s (DeprovMark 1%nat r victims) in
       (fold_left (fun s' c => sstep L (sstep L s' (ApiRemove c)) (InfDelete c)) gone s1,
        Z.of_nat (List.length victims) + Z.of_nat nfail =? Z.max 0 (a - r), l)
+  | DInterleave r ran b n cands =>
+      let i := List.length (tks s) in
+      let s1 := sstep L s (ProvBegin 1%nat r) in
+      let g := (List.length (tks s1) - i)%nat in
+      if ran then
+        let s2 := sstep L s1 (DriftBegin 1%nat r b n) in              (* the second actor, between reserve and active *)
+        let g2 := (List.length (tks s2) - List.length (tks s1))%nat in
+        let s3 := drive_drift L s2 (List.length (tks s1)) FNone cands in
+        let s4 := sstep L (sstep L (sstep L s3 (TkCreate i true)) (TkUpdate i)) (TkRelease i) in
+        (s4, Nat.eqb g 1 && Nat.eqb (List.length cands) g2, l)
+      else (s1, Nat.eqb g 0, l)
   | DSkip => (s, true, l)
   | DFinalize c => (sstep L (sstep L s (ApiRemove c)) (InfDelete c), true, l)
   | DLimit l' => (s, true, l')
